@@ -353,7 +353,12 @@ def replay(r):
 
 def replay_file(data):
     inp = data.get('input') or {}
-    code = BC.make(inp['code'], tuple(inp['size']), inp.get('deformation'), inp.get('kwargs'))
+    if inp.get('history'):
+        code = BC.make(inp['code'], tuple(inp['size']))
+        _ = (code.logicals_x, code.logicals_z, code.k, code.d, code.stabilizer_matrix, code.x_indices, code.is_css)
+        code.deform(inp.get('deformation'), **(inp.get('kwargs') or {}))
+    else:
+        code = BC.make(inp['code'], tuple(inp['size']), inp.get('deformation'), inp.get('kwargs'))
     fails = BC.c01_contract(code)
     return dict(confirmed=bool(fails), detail='; '.join(d for _, d in fails[:4]) or 'all clauses hold', input=inp)
 
@@ -383,6 +388,18 @@ def bounded(tier, seed):
             samples.append(dict(inp, n=code.n, k=code.k, ok=not fails))
         if fails:
             viol.append(dict(obligation='C01.bounded[%s]' % name, input=inp, detail='; '.join('%s: %s' % f for f in fails[:3])))
+        elif defo is not None and code.n <= 120:
+            # the same clauses on an object that was USED undeformed (logicals, k, d, masks, matrix cached) and deformed in place afterwards
+            try:
+                used = BC.make(name, size)
+                _ = (used.logicals_x, used.logicals_z, used.k, used.d, used.stabilizer_matrix, used.x_indices, used.is_css)
+                used.deform(defo, **kw)
+                fails = BC.c01_contract(used, rank=True)
+            except Exception as e:      # noqa
+                fails = [('raises', '%s: %s' % (type(e).__name__, e))]
+            ev += 1; nt.add((name, tuple(size), defo, tuple(sorted(kw.items())), 'used-then-deformed'))
+            if fails:
+                viol.append(dict(obligation='C01.bounded.history[%s]' % name, input=dict(inp, history='used, then deformed in place'), detail='; '.join('%s: %s' % f for f in fails[:3])))
     # one replay file per class, but every distinct (class, known/unknown) still reported: keep first unknown per class
     from pyvc.runner import known_match
     out, seen = [], set()
@@ -390,7 +407,7 @@ def bounded(tier, seed):
         key = (v['obligation'], known_match(PROPERTY, v['obligation'], v['input']) is not None)
         if key not in seen:
             seen.add(key); out.append(v)
-    return dict(bound='every class, supported sizes with L <= %d and n <= %d (at most %d sizes per class, seeded choice), every deformation name and axis; '
+    return dict(bound='every class, supported sizes with L <= %d and n <= %d (at most %d sizes per class, seeded choice), every deformation name and axis, each deformed case also on an object used before being deformed; '
                       'rank(H)=n-k by independent GF(2) elimination; %d s budget' % (maxL, maxn, per, budget),
                 evaluations=ev, distinct_nontrivial=len(nt),
                 rule='real objects through the coordinate API (dict operators); non-trivial iff deformed or non-cubic',
